@@ -396,6 +396,9 @@ func runC18Families(tier string, rng *RNG, o *Out) (int, error) {
 	}
 	// family K (producers parked inside Emit while Stop runs, c18d.go) runs at the same time as family B
 	waitParked := c18RunParked(tier, rng, o)
+	// family D (a second Stop -- concurrent, re-entrant from the held sink, repeated -- while the first is in progress,
+	// c18e.go) runs at the same time as well
+	waitSecond := c18RunSecond(tier, rng, o)
 	var bs []c18Blocked
 	for _, st := range strategies {
 		for i := 0; i < nH; i++ {
@@ -433,6 +436,11 @@ func runC18Families(tier string, rng *RNG, o *Out) (int, error) {
 		}
 	}
 	if n, err := waitParked(); err != nil {
+		return stuck, err
+	} else {
+		stuck += n
+	}
+	if n, err := waitSecond(); err != nil {
 		return stuck, err
 	} else {
 		stuck += n
